@@ -62,6 +62,9 @@ type obs struct {
 	Viols  []viol
 	Leaf   string // fingerprint summary of the matched signer
 	Hash   crypto.Hash
+	OutSize int64
+	Parts   map[string]int64 // size fingerprint: ZIP member -> uncompressed size, or "" -> file size
+	Info    string // SigInfo / Package strings of the matched signatures
 	// Explicit: content sniffing did not recognise the (lenient) shape and the
 	// type was named explicitly
 	Explicit bool
@@ -336,6 +339,9 @@ func (w *worker) evalPath(c caseDef, path string) (o obs) {
 		return
 	}
 	o.Result = "ok"
+	if fi, err := os.Stat(out); err == nil {
+		o.OutSize = fi.Size()
+	}
 	if exp == expRefuse {
 		add("sign-accepts-unsupported", why, "signing succeeded although it must be refused (%s)", why)
 	}
@@ -372,14 +378,24 @@ func (w *worker) checkOutput(c caseDef, in, out string, input []byte, o *obs, ad
 				add("pe-checksum-wrong", "", "CheckSum field %#x after signing, image sums to %#x", got, want)
 			}
 		}
+		if err := checkPEImprint(b, c.Hash); err != nil {
+			add("pe-imprint-mismatch", "", "%v", err)
+		}
 	}
 	if zipTypes[c.T.Name] {
 		// the artifact must still be a ZIP every standard reader opens (archive/zip, all members read to the end)
 		b, _ := os.ReadFile(out)
-		if _, _, err := zpkggen.ReadZip(b); err != nil {
+		files, _, err := zpkggen.ReadZip(b)
+		if err != nil {
 			add("output-zip-corrupt", "", "archive/zip cannot read the signed package: %v", err)
 			return
 		}
+		o.Parts = map[string]int64{}
+		for n, d := range files {
+			o.Parts[n] = int64(len(d))
+		}
+	} else {
+		o.Parts = map[string]int64{"": o.OutSize}
 	}
 	opts := w.verify
 	opts.NoChain = true
@@ -435,6 +451,7 @@ func (w *worker) checkOutput(c caseDef, in, out string, input []byte, o *obs, ad
 	}
 	o.Leaf = c.Key.Name
 	for _, s := range matched {
+		o.Info += s.SigInfo + "|" + s.Package + ";"
 		if s.X509Signature != nil {
 			if err := s.X509Signature.VerifyChain(w.roots, nil, x509.ExtKeyUsageAny); err != nil {
 				add("chain-rejected", "", "chain of the new signature does not verify against the fixture root: %v", err)
